@@ -416,7 +416,8 @@ class Worker:
                 z = q_in.get()
                 if z is None:
                     q_in.put(z)  # broadcast to one fellow worker
-                    q_out.put(z)
+                    # (The marker is forwarded to `q_out` by the consumer of this generator,
+                    # after the results: `self.stream` may read ahead of its outputs.)
                     break
 
                 uid, x = z
@@ -456,6 +457,7 @@ class Worker:
             uid = q_uid.get()
             q_out.put((uid, y))
             # Element in the output queue is always a 2-tuple, that is, (ID, value).
+        q_out.put(None)
 
     def _start_batch(self, *, q_in, q_out):
         def print_batching_info():
@@ -482,7 +484,7 @@ class Worker:
                 batch = self._get_input_batch()
                 if batch is None:
                     q_in.put(batch)  # broadcast to fellow workers.
-                    q_out.put(batch)
+                    # (forwarded to `q_out` after the results of the batches handed out; see below)
                     break
 
                 # The batch is a list of (ID, value) tuples.
@@ -524,6 +526,7 @@ class Worker:
                     if n_batches >= batch_size_log_cadence:
                         print_batching_info()
                         n_batches = 0
+            q_out.put(None)
         finally:
             if batch_size_log_cadence and n_batches:
                 # Finally, log this if `batch_size_log_cadence` is "truthy"
